@@ -65,6 +65,22 @@ fn run_hist(h: &History, ctx: &mut Ctx) -> CaseResult {
         total.infeasible_marks += cs.infeasible_marks;
         total.feasible_marks += cs.feasible_marks;
     }
+    // remove_axes on a tree that carries caches (any axes, not only sliced ones: the documentation allows it and
+    // says the function changes; whatever caches remain must be sound for the tree as it is afterwards)
+    let n = st.in_dim;
+    let keep: Vec<bool> = (0..n).map(|j| (h.out0 >> j) & 1 == 1).collect();
+    if n >= 2 && keep.iter().any(|k| *k) && keep.iter().any(|k| !*k) && st.t.len() <= 200 {
+        ctx.class("remove_axes_after_history");
+        let had = st.t.tree.node_iter().filter(|(_, nd)| !nd.value.state.is_indetermined()).count();
+        ctx.class_if(had > 0, "remove_axes_with_cached_states");
+        let mask = ndarray::Array1::from_iter(keep.iter().copied());
+        must("remove_axes", || st.t.remove_axes(&mask))?.map_err(|e| Failure::new(format!("remove_axes rejected a mask of the right length: {e}")))?;
+        let cs = check_caches(&st.t, "remove_axes after the history")?;
+        total.witnesses += cs.witnesses;
+        must("infeasible_elimination after remove_axes", || st.t.infeasible_elimination())?;
+        let cs = check_caches(&st.t, "infeasible_elimination after remove_axes")?;
+        total.witnesses += cs.witnesses;
+    }
     ctx.count("witness_checks", total.witnesses);
     ctx.count("witness_on_decision", total.witness_on_decision);
     ctx.count("infeasible_marks_checked", total.infeasible_marks);
